@@ -46,11 +46,11 @@ Proof. exact WrapperProofs.writer_blocked_l. Qed.
    sharers, under every choice; so are read and ordered_guarded::load *)
 Theorem readers_share : forall cf t c g pr sl h am,
   shcap cf = true -> owner g = None -> exists r, tstep cf t c g (Loc pr (HAcq h am true) sl) = Some r.
-Proof. exact WrapperProofs.readers_share_handle_l. Qed.
+Proof. exact WrapperProofs.readers_share_handle_t. Qed.
 Theorem readers_share_read : forall cf t c g pr sl o code,
   shcap cf = true -> owner g = None -> wop_code cf o = Some (true, code) ->
   exists r, tstep cf t c g (Loc pr (GAcq o) sl) = Some r.
-Proof. exact WrapperProofs.readers_share_guard_l. Qed.
+Proof. exact WrapperProofs.readers_share_guard_t. Qed.
 
 (* mutex / timed_mutex: shared access degrades to exclusive access and stays safe - a thread with a live
    owning shared handle (or inside read / ordered load) has exclusive access: no other thread holds the mutex
@@ -89,9 +89,9 @@ Theorem deferred_no_fault : forall m th progs (s : sys DeferredModel.glob Deferr
 Proof. exact DeferredProofs.def_no_fault. Qed.
 
 (* ---------- non-vacuity ---------- *)
-Definition cf_s : config := Cfg FShared MShared true 3 [].
-Definition cf_p : config := Cfg FShared MPlain true 3 [].
-Definition cf_o : config := Cfg FOrdered MSharedTimed true 3 [].
+Definition cf_s : config := Cfg FShared MShared true 3 [] false.
+Definition cf_p : config := Cfg FShared MPlain true 3 [] false.
+Definition cf_o : config := Cfg FOrdered MSharedTimed true 3 [] false.
 Definition rep (t n : nat) : list (nat * nat) := repeat (t, 0%nat) n.
 Definition rd_prog := [LockShared 0; Use 0 ARead false; Destroy 0].
 
